@@ -1,12 +1,525 @@
-//! C12: harness module (stub — not built yet)
-#![allow(dead_code, unused_imports, unused_variables)]
+//! C12: start-up / tear-down callback order, builder checks, object paths.
+//!
+//! Every case builds one real `des` simulation through the public builder API and runs it.
+//! Script lines (a node is always named by its full path, so lines survive deletion; `~` is the
+//! empty string):
+//!   node <path> s=<stages> w=<wake>   `sim.node(path, Scripted{..})`; the module declares
+//!                                     `num_sim_start_stages() = stages` and, if `wake > 0`, schedules a
+//!                                     self-message `wake*(stage+1)` ns ahead in every `at_sim_start(stage)`
+//!   block <path> s=<stages> rels=<r1>,<r2>,…
+//!                                     `sim.node(path, Block)` where `Block: ModuleBlock` calls `sim.root(M)` and then
+//!                                     `sim.node(r_i, M)` on the `SimBuilderScoped` (paths relative to `path`, possibly dotted)
+//!   nodes                             `sim.nodes()`: the module vector in its current order
+//!   run                               `Builder::seeded(1).quiet().build(sim.freeze()).run()`
+//!   path <str>                        `ObjectPath::from(str)`: len / name / as_parent_str / parent / equality
+//!                                     with the path obtained by repeated `appended`
+//!   app <base> <seg>                  `ObjectPath::from(base).appended(seg)` (+ `appended_gate`)
+//! Transcript answers:
+//!   node  -> ok | dup | noparent | panic
+//!   block -> <answer for root>,<answer for r1>,…   (same alphabet)
+//!   nodes -> <path>,<path>,…   (`-` when empty)
+//!   run   -> res=<ok|err|panic|none> then the callback log in call order:
+//!            S:<path>:<stage>:<ns>                       at_sim_start(stage)
+//!            M:<path>:<ns>                               handle_message
+//!            E:<path>:<ns>:<len>:<name>:<parent>:<kids>  at_sim_end, with the lookups made inside it:
+//!                 path().len(), name(), parent() (`-` = NoEntry, `!` = other error) and
+//!                 child(n) for every n in the case's name pool (`n>childpath`, comma separated, `-` if none)
+//!   path  -> len=<n> name=<s> pstr=<s> par=<s|none> plen=<n> pname=<s> eqapp=<0|1>
+//!   app   -> str=<s> len=<n> name=<s> par=<s|none> pareq=<0|1> gate=<0|1>
 use crate::rng::Rng;
 use crate::util::{cases, guarded, hval};
+use des::net::blocks::ModuleBlock;
+use des::prelude::*;
+use std::fmt::Write;
+use std::sync::{Arc, Mutex};
+use std::time::Duration;
 
-pub fn gen(_seed: u64, _count: usize, _thorough: bool) -> String {
-    String::new()
+fn tok(s: &str) -> String {
+    if s.is_empty() {
+        "~".to_string()
+    } else {
+        s.to_string()
+    }
+}
+fn untok(s: &str) -> &str {
+    if s == "~" {
+        ""
+    } else {
+        s
+    }
 }
 
-pub fn exec(_input: &str) -> String {
-    String::new()
+// ------------------------------------------------------------------------------------------ gen
+
+/// names: textual prefixes of each other, multi-byte UTF-8 (2, 3 and 4 byte characters)
+const NAMES: [&str; 24] = [
+    "alice", "alicent", "al", "a", "ali", "bob", "b", "bo", "ä", "äb", "日本", "日", "é", "x-1", "n0",
+    "ñandú", "😀", "a😀b", "eve", "e", "ab", "aa", "alice2", "ß",
+];
+const WEIRD: [&str; 12] = ["~", ".", "a.", ".a", "a..b", "a.b.", "..", "b.", "alice.", ".alice", "日.", "a...b"];
+
+struct TNode {
+    path: String,
+    parent: Option<usize>,
+}
+
+fn gen_tree(r: &mut Rng, max_nodes: usize, max_depth: usize, max_fan: usize) -> Vec<TNode> {
+    // grow a random tree: repeatedly attach a child to a random existing node (or a new root)
+    let mut nodes: Vec<TNode> = Vec::new();
+    let mut depth: Vec<usize> = Vec::new();
+    let mut fan: Vec<usize> = Vec::new();
+    let mut roots = 0usize;
+    let shape = r.below(4); // 0 bushy, 1 deep, 2 mixed, 3 mixed
+    let mut tries = 0;
+    while nodes.len() < max_nodes && tries < 10 * max_nodes {
+        tries += 1;
+        let as_root = nodes.is_empty() || (roots < max_fan && r.chance(if shape == 1 { 1 } else { 3 }, 10));
+        let (parent, d) = if as_root {
+            (None, 1)
+        } else {
+            let p = if shape == 1 && r.chance(2, 3) {
+                // prefer the deepest nodes
+                let md = *depth.iter().max().unwrap();
+                let c: Vec<usize> = (0..nodes.len()).filter(|&i| depth[i] + 1 >= md).collect();
+                *r.pick(&c)
+            } else {
+                r.below(nodes.len() as u64) as usize
+            };
+            (Some(p), depth[p] + 1)
+        };
+        if d > max_depth {
+            continue;
+        }
+        if let Some(p) = parent {
+            if fan[p] >= max_fan {
+                continue;
+            }
+        }
+        // sibling names must differ; prefer names sharing a prefix with an existing sibling
+        let name = *r.pick(&NAMES);
+        let path = match parent {
+            None => name.to_string(),
+            Some(p) => format!("{}.{}", nodes[p].path, name),
+        };
+        if nodes.iter().any(|n| n.path == path) {
+            continue;
+        }
+        match parent {
+            None => roots += 1,
+            Some(p) => fan[p] += 1,
+        }
+        nodes.push(TNode { path, parent });
+        depth.push(d);
+        fan.push(0);
+    }
+    nodes
+}
+
+/// a uniformly-ish random linear extension (parents first)
+fn random_order(r: &mut Rng, t: &[TNode]) -> Vec<usize> {
+    let mut done = vec![false; t.len()];
+    let mut out = Vec::new();
+    while out.len() < t.len() {
+        let ready: Vec<usize> =
+            (0..t.len()).filter(|&i| !done[i] && t[i].parent.map_or(true, |p| done[p])).collect();
+        let i = *r.pick(&ready);
+        done[i] = true;
+        out.push(i);
+    }
+    out
+}
+
+fn all_orders(t: &[TNode], cap: usize) -> Vec<Vec<usize>> {
+    fn rec(t: &[TNode], done: &mut Vec<bool>, cur: &mut Vec<usize>, out: &mut Vec<Vec<usize>>, cap: usize) {
+        if out.len() >= cap {
+            return;
+        }
+        if cur.len() == t.len() {
+            out.push(cur.clone());
+            return;
+        }
+        for i in 0..t.len() {
+            if !done[i] && t[i].parent.map_or(true, |p| done[p]) {
+                done[i] = true;
+                cur.push(i);
+                rec(t, done, cur, out, cap);
+                cur.pop();
+                done[i] = false;
+            }
+        }
+    }
+    let mut out = Vec::new();
+    rec(t, &mut vec![false; t.len()], &mut Vec::new(), &mut out, cap);
+    out
+}
+
+fn emit_case(out: &mut String, r: &mut Rng, id: &str, t: &[TNode], order: &[usize], stages: &[u64], wakes: &[u64], noise: bool) {
+    writeln!(out, "case {id} n={}", t.len()).unwrap();
+    let mut emitted: Vec<usize> = Vec::new();
+    for (k, &i) in order.iter().enumerate() {
+        if noise {
+            match r.below(14) {
+                0 if !emitted.is_empty() => {
+                    // duplicate of an existing node
+                    let j = *r.pick(&emitted);
+                    writeln!(out, "node {} s={} w=0", t[j].path, r.below(4)).unwrap();
+                }
+                1 => {
+                    // a node whose parent does not exist (yet): some later node's child, or a fresh one
+                    let later = &order[k..];
+                    let j = *r.pick(later);
+                    let nm = *r.pick(&NAMES);
+                    writeln!(out, "node {}.{} s=1 w=0", t[j].path, nm).unwrap();
+                }
+                2 => {
+                    let nm = *r.pick(&NAMES);
+                    let nm2 = *r.pick(&NAMES);
+                    writeln!(out, "node zz{}.{} s=1 w=0", nm, nm2).unwrap();
+                }
+                3 if r.chance(1, 2) => {
+                    writeln!(out, "node {} s={} w=0", r.pick(&WEIRD), r.below(3)).unwrap();
+                }
+                4 if r.chance(1, 3) => writeln!(out, "nodes").unwrap(),
+                7 if r.chance(1, 2) => {
+                    // a ModuleBlock with its own little subtree, relative (possibly dotted) paths
+                    const RELS: [&str; 10] = ["a", "al", "a.b", "a.al", "c.d", "ä", "ä.日", "a.b.c", "~", "al.a"];
+                    let base = if r.chance(1, 4) && !emitted.is_empty() {
+                        format!("{}.zb{}", t[*r.pick(&emitted)].path, r.pick(&NAMES))
+                    } else {
+                        format!("zb{}", r.pick(&NAMES))
+                    };
+                    let n = r.range(1, 4);
+                    let rels: Vec<&str> = (0..n).map(|_| *r.pick(&RELS)).collect();
+                    writeln!(out, "block {} s={} rels={}", base, r.below(3), rels.join(",")).unwrap();
+                }
+                5 if r.chance(1, 2) => {
+                    // path probes
+                    let s = if r.chance(1, 3) { r.pick(&WEIRD).to_string() } else { t[*r.pick(order)].path.clone() };
+                    writeln!(out, "path {s}").unwrap();
+                }
+                6 if r.chance(1, 2) => {
+                    let base = if r.chance(1, 4) { "~".to_string() } else { t[*r.pick(order)].path.clone() };
+                    let seg = if r.chance(1, 6) { r.pick(&WEIRD).to_string() } else { r.pick(&NAMES).to_string() };
+                    writeln!(out, "app {base} {seg}").unwrap();
+                }
+                _ => {}
+            }
+        }
+        writeln!(out, "node {} s={} w={}", t[i].path, stages[i], wakes[i]).unwrap();
+        emitted.push(i);
+    }
+    if noise && r.chance(1, 4) && !emitted.is_empty() {
+        let j = *r.pick(&emitted);
+        writeln!(out, "node {} s=2 w=0", t[j].path).unwrap();
+    }
+    writeln!(out, "nodes").unwrap();
+    writeln!(out, "run").unwrap();
+    writeln!(out, "end").unwrap();
+}
+
+pub fn gen(seed: u64, count: usize, thorough: bool) -> String {
+    let mut r = Rng::new(seed);
+    let mut out = String::new();
+    let mut k = 0usize;
+    while k < count {
+        // thorough tier: every so often enumerate ALL linear extensions of a small tree
+        if thorough && r.chance(1, 40) && count - k > 200 {
+            let n = r.range(3, 7) as usize;
+            let t = gen_tree(&mut r, n, 4, 3);
+            let stages: Vec<u64> = t.iter().map(|_| r.below(4)).collect();
+            let wakes: Vec<u64> = t.iter().map(|_| 0).collect();
+            let orders = all_orders(&t, (count - k).min(5040));
+            for (j, o) in orders.iter().enumerate() {
+                emit_case(&mut out, &mut r, &format!("{k}x{j}"), &t, o, &stages, &wakes, false);
+            }
+            k += orders.len();
+            continue;
+        }
+        let max_nodes = match r.below(10) {
+            0 => r.range(1, 3),
+            1..=5 => r.range(4, 10),
+            _ => r.range(8, if thorough { 40 } else { 22 }),
+        } as usize;
+        let t = gen_tree(&mut r, max_nodes, 5, 4);
+        let order = random_order(&mut r, &t);
+        let stage_mode = r.below(5);
+        let stages: Vec<u64> = t
+            .iter()
+            .map(|_| match stage_mode {
+                0 => 1,
+                1 => r.range(1, 3),
+                _ => r.below(4),
+            })
+            .collect();
+        let wake_mode = r.below(3);
+        let wakes: Vec<u64> = t
+            .iter()
+            .map(|_| match wake_mode {
+                0 => 0,
+                1 => {
+                    if r.chance(1, 3) {
+                        r.range(1, 5)
+                    } else {
+                        0
+                    }
+                }
+                _ => r.below(4) * 1000,
+            })
+            .collect();
+        let noise = r.chance(2, 3);
+        emit_case(&mut out, &mut r, &k.to_string(), &t, &order, &stages, &wakes, noise);
+        k += 1;
+    }
+    out
+}
+
+// ------------------------------------------------------------------------------------------ exec
+
+type Log = Arc<Mutex<Vec<String>>>;
+
+struct Scripted {
+    stages: usize,
+    wake: u64,
+    log: Log,
+    pool: Arc<Vec<String>>,
+}
+
+fn now_ns() -> u128 {
+    SimTime::now().as_nanos()
+}
+
+impl Module for Scripted {
+    fn num_sim_start_stages(&self) -> usize {
+        self.stages
+    }
+    fn at_sim_start(&mut self, stage: usize) {
+        let p = current().path();
+        self.log.lock().unwrap().push(format!("S:{}:{}:{}", tok(p.as_str()), stage, now_ns()));
+        if self.wake > 0 {
+            schedule_in(Message::default(), Duration::from_nanos(self.wake * (stage as u64 + 1)));
+        }
+    }
+    fn handle_message(&mut self, _msg: Message) {
+        let p = current().path();
+        self.log.lock().unwrap().push(format!("M:{}:{}", tok(p.as_str()), now_ns()));
+    }
+    fn at_sim_end(&mut self) -> Result<(), RuntimeError> {
+        let ctx = current();
+        let p = ctx.path();
+        let parent = match ctx.parent() {
+            Ok(m) => tok(m.path().as_str()),
+            Err(ModuleReferencingError::NoEntry(_)) => "-".to_string(),
+            Err(_) => "!".to_string(),
+        };
+        let mut kids: Vec<String> = Vec::new();
+        for n in self.pool.iter() {
+            if let Ok(c) = ctx.child(n) {
+                kids.push(format!("{}>{}", tok(n), tok(c.path().as_str())));
+            }
+        }
+        let kids = if kids.is_empty() { "-".to_string() } else { kids.join(",") };
+        self.log.lock().unwrap().push(format!(
+            "E:{}:{}:{}:{}:{}:{}",
+            tok(p.as_str()),
+            now_ns(),
+            p.len(),
+            tok(&ctx.name()),
+            parent,
+            kids
+        ));
+        Ok(())
+    }
+}
+
+fn classify(r: Result<(), String>) -> &'static str {
+    match r {
+        Ok(()) => "ok",
+        Err(msg) if msg.contains("node allready exists") => "dup",
+        Err(msg) if msg.contains("is required, but does not exist") => "noparent",
+        Err(_) => "panic",
+    }
+}
+
+struct Block {
+    rels: Vec<String>,
+    stages: usize,
+    log: Log,
+    pool: Arc<Vec<String>>,
+    answers: Arc<Mutex<Vec<&'static str>>>,
+}
+
+impl ModuleBlock for Block {
+    type Ret = ();
+    fn build<A>(self, mut sim: SimBuilderScoped<'_, A>) {
+        let mk = |b: &Block| Scripted { stages: b.stages, wake: 0, log: b.log.clone(), pool: b.pool.clone() };
+        let m = mk(&self);
+        let r = guarded(|| sim.root(m));
+        self.answers.lock().unwrap().push(classify(r));
+        for rel in &self.rels {
+            let m = mk(&self);
+            let r = guarded(|| sim.node(rel.as_str(), m));
+            self.answers.lock().unwrap().push(classify(r));
+        }
+    }
+}
+
+/// the case's name pool: every '.'-separated segment of every `node` line's path, sorted, distinct
+fn name_pool(body: &[String]) -> Vec<String> {
+    let mut pool: Vec<String> = vec!["zz".to_string()];
+    for l in body {
+        let w: Vec<&str> = l.split_whitespace().collect();
+        if w.len() >= 2 && (w[0] == "node" || w[0] == "block") {
+            for seg in untok(w[1]).split('.') {
+                pool.push(seg.to_string());
+            }
+        }
+        if w.len() >= 2 && w[0] == "block" {
+            if let Some(rels) = hval(l, "rels") {
+                for rel in rels.split(',') {
+                    for seg in untok(rel).split('.') {
+                        pool.push(seg.to_string());
+                    }
+                }
+            }
+        }
+    }
+    pool.sort();
+    pool.dedup();
+    pool
+}
+
+fn path_obs(s: &str) -> String {
+    let r = guarded(|| {
+        let p = ObjectPath::from(s);
+        let par = p.parent();
+        let (pars, plen, pname) = match &par {
+            Some(q) => (tok(q.as_str()), q.len(), tok(q.name())),
+            None => ("none".to_string(), 0, "~".to_string()),
+        };
+        let mut acc = ObjectPath::default();
+        for seg in s.split('.') {
+            acc = acc.appended(seg);
+        }
+        format!(
+            "len={} name={} pstr={} par={} plen={} pname={} eqapp={}",
+            p.len(),
+            tok(p.name()),
+            tok(p.as_parent_str()),
+            pars,
+            plen,
+            pname,
+            (acc == p) as u8
+        )
+    });
+    r.unwrap_or_else(|_| "panic".to_string())
+}
+
+fn app_obs(base: &str, seg: &str) -> String {
+    let r = guarded(|| {
+        let b = ObjectPath::from(base);
+        let p = b.appended(seg);
+        let par = p.parent();
+        let pars = match &par {
+            Some(q) => tok(q.as_str()),
+            None => "none".to_string(),
+        };
+        let g = b.appended_gate(seg);
+        format!(
+            "str={} len={} name={} par={} pareq={} gate={}",
+            tok(p.as_str()),
+            p.len(),
+            tok(p.name()),
+            pars,
+            (par == Some(b.clone())) as u8,
+            (!g.is_module() && g.as_str() == p.as_str() && g.len() == p.len() && g.name() == p.name()) as u8
+        )
+    });
+    r.unwrap_or_else(|_| "panic".to_string())
+}
+
+pub fn exec(input: &str) -> String {
+    let mut out = String::new();
+    for (header, body) in cases(input) {
+        writeln!(out, "{header}").unwrap();
+        let pool = Arc::new(name_pool(&body));
+        let log: Log = Arc::new(Mutex::new(Vec::new()));
+        let mut sim = Some(Sim::new(()));
+        for line in &body {
+            let w: Vec<&str> = line.split_whitespace().collect();
+            let ans = match w.as_slice() {
+                ["node", path, rest @ ..] => {
+                    let hdr = rest.join(" ");
+                    let stages = hval(&hdr, "s").and_then(|v| v.parse().ok()).unwrap_or(1usize);
+                    let wake = hval(&hdr, "w").and_then(|v| v.parse().ok()).unwrap_or(0u64);
+                    match sim.as_mut() {
+                        None => "late".to_string(),
+                        Some(sim) => {
+                            let m = Scripted { stages, wake, log: log.clone(), pool: pool.clone() };
+                            let p = untok(path).to_string();
+                            classify(guarded(|| sim.node(p.as_str(), m))).to_string()
+                        }
+                    }
+                }
+                ["block", path, rest @ ..] => {
+                    let hdr = rest.join(" ");
+                    let stages = hval(&hdr, "s").and_then(|v| v.parse().ok()).unwrap_or(1usize);
+                    let rels: Vec<String> = hval(&hdr, "rels")
+                        .map(|v| v.split(',').map(|x| untok(x).to_string()).collect())
+                        .unwrap_or_default();
+                    match sim.as_mut() {
+                        None => "late".to_string(),
+                        Some(sim) => {
+                            let answers = Arc::new(Mutex::new(Vec::new()));
+                            let b = Block { rels, stages, log: log.clone(), pool: pool.clone(), answers: answers.clone() };
+                            let p = untok(path).to_string();
+                            let r = guarded(|| sim.node(p.as_str(), b));
+                            let a = answers.lock().unwrap().clone();
+                            if r.is_err() || a.is_empty() {
+                                "panic".to_string()
+                            } else {
+                                a.join(",")
+                            }
+                        }
+                    }
+                }
+                ["nodes"] => match sim.as_ref() {
+                    None => "late".to_string(),
+                    Some(sim) => match guarded(|| sim.nodes().map(|p| tok(p.as_str())).collect::<Vec<String>>()) {
+                        Ok(v) if v.is_empty() => "-".to_string(),
+                        Ok(v) => v.join(","),
+                        Err(_) => "panic".to_string(),
+                    },
+                },
+                ["run"] => match sim.take() {
+                    None => "res=none".to_string(),
+                    Some(sim) => {
+                        let res = guarded(|| Builder::seeded(1).quiet().build(sim.freeze()).run());
+                        // des installs its own panic hook at start-up and removes it at tear-down
+                        if std::env::var("HX_PANIC_MSG").is_err() {
+                            std::panic::set_hook(Box::new(|_| {}));
+                        }
+                        let res = match res {
+                            Ok(Ok(_)) => "ok",
+                            Ok(Err(_)) => "err",
+                            Err(_) => "panic",
+                        };
+                        let entries = std::mem::take(&mut *log.lock().unwrap());
+                        let mut s = format!("res={res}");
+                        for e in entries {
+                            s.push(' ');
+                            s.push_str(&e);
+                        }
+                        s
+                    }
+                },
+                ["path", s] => path_obs(untok(s)),
+                ["app", b, s] => app_obs(untok(b), untok(s)),
+                _ => "badline".to_string(),
+            };
+            writeln!(out, "{line} -> {ans}").unwrap();
+        }
+        let _ = guarded(move || drop(sim));
+        writeln!(out, "end").unwrap();
+    }
+    out
 }
